@@ -1,6 +1,7 @@
 import Pyunicorn.Model.Proto
 import Pyunicorn.Model.Recurrence
 import Pyunicorn.Model.RecurrenceObjects
+import Pyunicorn.Model.RecurrenceRqa
 /-! Line-protocol driver for C07: one request per line on stdin, one answer per line.
 
 values: rationals `p/q`, `nan`; matrices rows separated by `;`; empty = `-`;
@@ -63,11 +64,25 @@ def jrnStrideOf (setter : Bool) (sp : String) (N : Int) : Int :=
   | _ => Generated.ArithC07.jrnStrideRate N
 
 def jointX (mx my : Metric) (lag : Int) (X Y : List (List V)) (ex ey : Option (Nat × Nat))
-    (sx sy : String) (nRaw : Nat) : Res Plot :=
+    (sx sy : String) (nRaw nRawY : Nat) : Res Plot :=
+  -- the equal-length test comes first in `__init__` (before anything is embedded)
+  if !jointGuard nRaw nRawY 0 then .valueError else
   (stateVectors X ex).bind fun eX => (stateVectors Y ey).bind fun eY =>
     match sx.splitOn ":", sy.splitOn ":" with
-    | ["s", a], ["s", b] => jointPlotStd mx my X Y eX eY nRaw lag (rat! a) (rat! b)
-    | _, _ => jointPlot mx my eX eY nRaw lag (spec! sx) (spec! sy)
+    | ["s", a], ["s", b] => jointPlotStd mx my X Y eX eY nRaw nRawY lag (rat! a) (rat! b)
+    | _, _ => jointPlot mx my eX eY nRaw nRawY lag (spec! sx) (spec! sy)
+
+def cls? (s : String) : Cls :=
+  match s with
+  | "rp" => .rp | "crp" => .crp | "jrp" => .jrp | "rn" => .rn | "jrn" => .jrn | _ => .isrn
+def need? (s : String) : Need :=
+  match s with
+  | "matrix" => .matrix | "rate" => .rate | "diagOf" => .diagOf | "blackLines" => .blackLines
+  | "whiteLines" => .whiteLines | "twins" => .twins | "ordinal" => .ordinal | _ => .distance
+def showOutcome : Outcome → String
+  | .ok => "ok" | .notImplemented => "raise:NotImplementedError" | .valueError => "raise:ValueError"
+def showOptRat : Option Rat → String
+  | none => "undefined" | some q => showRat q
 
 def outside : String := "outside-model"
 
@@ -84,9 +99,8 @@ def answer (toks : List String) : String :=
     showRes showPlot ((stateVectors (vMat x) (emb? e)).bind fun ex =>
       (stateVectors (vMat y) (emb? e)).bind fun ey => crossPlot (metric? m) ex ey (spec! sp))
   | ["jrp", mx, my, lag, ex, ey, sx, sy, x, y] =>
-    showRes showPlot ((stateVectors (vMat x) (emb? ex)).bind fun eX =>
-      (stateVectors (vMat y) (emb? ey)).bind fun eY =>
-        jointPlot (metric? mx) (metric? my) eX eY (vMat x).length lag.toInt! (spec! sx) (spec! sy))
+    showRes showPlot (jointX (metric? mx) (metric? my) lag.toInt! (vMat x) (vMat y) (emb? ex)
+      (emb? ey) sx sy (vMat x).length (vMat y).length)
   | ["stride", which, n, r] =>
     let N := n.toInt!
     let st := match which with
@@ -137,7 +151,7 @@ def answer (toks : List String) : String :=
     match storedSeries (vMat x) (norm == "1"), storedSeries (vMat y) (norm == "1") with
     | some X, some Y =>
       let r := jointX (metric? mx) (metric? my) lag.toInt! X Y (emb? ex) (emb? ey) sx sy
-        (vMat x).length
+        (vMat x).length (vMat y).length
       if net == "p" then showRes showPlot r
       else showRes showNet (r.bind fun p => .ok (networkOf p (jrnStrideOf (net == "s") sx p.N)))
     | _, _ => outside
@@ -152,6 +166,17 @@ def answer (toks : List String) : String :=
         interSystem (metric? m) eX eY (spec! s1) (spec! s2) (spec! s3)
           (match spec! s1 with | .rate _ => true | _ => false))
     | _, _ => outside
+  | ["rqa", cls, sparse, supThr, embedded, need] =>
+    -- which quantification methods are defined (`Model/RecurrenceRqa.lean`)
+    showOutcome (outcome ⟨cls? cls, sparse == "1", supThr == "1", embedded == "1"⟩ (need? need))
+  | ["rr", n, r] => showOptRat (recurrenceRate (boolMat r) n.toInt!)
+  | ["crr", n, m, r] => showOptRat (crossRecurrenceRate (boolMat r) n.toInt! m.toInt!)
+  | ["rprob", n, lag, r] => showOptRat (recurrenceProbability (boolMat r) n.toInt! lag.toNat!)
+  | ["sparse", mv, e, eps, ts] =>
+    -- sequential RQA: the line histograms of the matrix the sequential kernels see
+    showRes (fun emb => s!"N={emb.length} V={showNats (sparseVertline emb (rat! eps) (mv == "1"))} " ++
+        s!"D={showNats (sparseDiagline emb (rat! eps) (mv == "1"))}")
+      (stateVectors (vMat ts) (emb? e))
   | ["normalize", ts] =>
     match normalizeSeries (vMat ts) with
     | none => outside
